@@ -182,6 +182,11 @@ enum HFrame {
     Ping,
     Ack { largest: Num, delay: u64, first: First, ranges: Vec<(u64, u64)>, ecn: Option<(u64, u64, u64)> },
     Crypto { off: u64, len: u16 },
+    /// CRYPTO frame of two bytes placed on the type field of the quic_transport_parameters
+    /// extension of the ClientHello the attacker saw on the wire (it turns 0x0039 into an unknown
+    /// extension): delivered ahead of the genuine Initial packet, the server reads a ClientHello
+    /// without the mandatory extension (RFC 9001 8.2). PING if no ClientHello has been seen yet.
+    CryptoHideTransportParameters,
     /// CONNECTION_CLOSE of type 0x1c
     CloseQuic { code: u64, ftype: u64, reason: u8 },
     /// a frame type RFC 9000 12.4 (table 3) does not permit in Initial packets; `ty` indexes `FORBIDDEN`
@@ -220,7 +225,7 @@ impl HFrame {
             HFrame::Padding(_) => "PADDING".into(),
             HFrame::Ping => "PING".into(),
             HFrame::Ack { .. } => "ACK".into(),
-            HFrame::Crypto { .. } => "CRYPTO".into(),
+            HFrame::Crypto { .. } | HFrame::CryptoHideTransportParameters => "CRYPTO".into(),
             HFrame::CloseQuic { .. } => "CONNECTION_CLOSE".into(),
             HFrame::Forbidden { ty, .. } => FORBIDDEN[gens_idx8(*ty)].0.into(),
         }
@@ -284,8 +289,25 @@ fn resolve_num(n: Num, sent: Option<u64>) -> u64 {
 
 /// RFC 9000 section 19 layouts. Returns the bytes and the resolved description.
 fn encode_frame(f: &HFrame, sent: Option<u64>, tag: u64) -> (Vec<u8>, Resolved) {
+    encode_frame_at(f, sent, tag, None)
+}
+
+fn encode_frame_at(f: &HFrame, sent: Option<u64>, tag: u64, tp_ext_offset: Option<u64>) -> (Vec<u8>, Resolved) {
     let mut b = vec![];
     match f {
+        HFrame::CryptoHideTransportParameters => match tp_ext_offset {
+            Some(off) => {
+                b.push(0x06);
+                put_vi(&mut b, off);
+                put_vi(&mut b, 2);
+                b.extend([0xff, 0xa5]);
+                (b, Resolved::Crypto { off, len: 2 })
+            }
+            None => {
+                b.push(0x01);
+                (b, Resolved::Ping)
+            }
+        },
         HFrame::Padding(n) => {
             b.extend(std::iter::repeat_n(0u8, (*n as usize).max(1)));
             (b, Resolved::Padding)
@@ -477,6 +499,7 @@ fn hframe() -> BoxedStrategy<HFrame> {
         9 => (num(), gens::varint(), first(), ranges(), proptest::option::weighted(0.3, (gens::varint(), gens::varint(), gens::varint())))
             .prop_map(|(largest, delay, first, ranges, ecn)| HFrame::Ack { largest, delay, first, ranges, ecn }),
         5 => (crypto_off, crypto_len).prop_map(|(off, len)| HFrame::Crypto { off, len }),
+        2 => Just(HFrame::CryptoHideTransportParameters),
         2 => (code, gens::varint(), 0u8..20).prop_map(|(code, ftype, reason)| HFrame::CloseQuic { code, ftype, reason }),
         4 => (any::<u8>(), gens::varint(), gens::varint(), gens::varint()).prop_map(|(ty, a, b, c)| HFrame::Forbidden { ty, a, b, c }),
     ]
@@ -721,7 +744,7 @@ async fn scenario(case: Case) -> Obs {
             let mut out = vec![];
             let mut res = vec![];
             for (k, f) in frames[view.rule].iter().enumerate() {
-                let (bytes, r) = encode_frame(f, view.victim_largest_sent, (view.rule * 8 + k) as u64);
+                let (bytes, r) = encode_frame_at(f, view.victim_largest_sent, (view.rule * 8 + k) as u64, view.tp_ext_offset);
                 if out.len() + bytes.len() > view.room {
                     break;
                 }
